@@ -128,6 +128,26 @@ func TestConvergence(t *testing.T) {
 							fail("query-returned-more-than-one-entry", map[string]any{"replica": rp.name, "key": k})
 							return false
 						}
+						if len(es) == 1 {
+							// what the pipeline does with a queried entry: a Store built from it is handed to the
+							// integration, which may write to it; the logged entry must not change through that
+							before := render(es[0], base)
+							st := nflog.NewStore(es[0])
+							st.SetStr("s", "written-by-a-reader")
+							st.SetInt("n", -7)
+							st.SetFloat("f", 1.5)
+							st.Delete("i")
+							es2, _ := rp.log.Query(nflog.QGroupKey(gk), nflog.QReceiver(rc))
+							if len(es2) != 1 || render(es2[0], base) != before {
+								after := "not found"
+								if len(es2) == 1 {
+									after = render(es2[0], base)
+								}
+								fail("logged-receiver-data-changed-through-a-store-built-from-the-queried-entry", map[string]any{"replica": rp.name, "key": k, "before": before, "after": after})
+								return false
+							}
+							es = es2
+						}
 						gv := rp.given[k]
 						anyExpired := false
 						var newest *pb.MeshEntry
